@@ -86,6 +86,14 @@ class Src:
                 self.status = int(self.status_raw) if self.status_raw is not None and re.fullmatch(rb"[0-9]{3}", self.status_raw) else None
         else:
             self.fields = U(m["fields"])
+            # an HTTP/1 sender's meaning is only defined if the strict reader accepts its bytes (HTTP/1 input
+            # ambiguities are C01's subject)
+            if which == "req":
+                p = ref.parse_requests(Check.h1_request_bytes(m))
+            else:
+                p = ref.parse_responses(Check.h1_response_bytes(m), methods=None, eof=True)
+            if len(p.messages) != 1 or p.stop is not None:
+                self.wellformed = False
             if which == "req":
                 self.method, self.path, self.scheme = unhx(m["method"]), unhx(m["target"]), b"http"
                 hosts = [v.strip(b" \t") for k, v in self.fields if k.lower() == b"host"]
@@ -481,7 +489,9 @@ class Check(PropertyCheck):
                             fails.append(f"upper-case field name sent over HTTP/2: {fs!r}")
         if forwarded_req is not None:
             f = forwarded_req
-            if not rq.wellformed:
+            if not rq.wellformed and cv == 1:
+                pass
+            elif not rq.wellformed:
                 fails.append("a malformed HTTP/2 header block (duplicate/missing/unknown pseudo-header) was forwarded")
             else:
                 if f["method"] != rq.method: fails.append(f"method changed: {rq.method!r} -> {f['method']!r}")
@@ -538,7 +548,9 @@ class Check(PropertyCheck):
             # is it the server's response (and not an error page made up by mitmproxy)?
             relayed = got is not None and "response" in obs["hooks"] and "error" not in obs["hooks"]
             if relayed:
-                if not rs.wellformed or rs.status is None:
+                if not rs.wellformed and sv == 1:
+                    pass
+                elif not rs.wellformed or rs.status is None:
                     fails.append("a malformed HTTP/2 response block was relayed")
                 else:
                     if got["status"] != rs.status: fails.append(f"status changed: {rs.status} -> {got['status']}")
